@@ -1,11 +1,1280 @@
-//! C07 -- not built yet (stub so the crate layout is stable).
-use crate::engine::report::{Ctx, Report};
-use serde_json::Value;
+//! C07 -- surface views are exact, non-aliasing windows onto their parent surface.
+//!
+//! Explicit-state BFS over *programs* = chains of `transpose` / `view(rows, cols)` (11 x 11
+//! selector pairs, DESIGN.md) applied to base surfaces of every size h, w in 0..=5 (quick) /
+//! 0..=8 (thorough) in two memory layouts (dense `SurfaceOwned`, and a padded/strided buffer
+//! wrapped with the public `SurfaceView::new` / `SurfaceMutView::new`). Every cell of a base
+//! holds its own coordinates. The state key is the resulting `Shape` + the base (the data slice
+//! is shared, so the shape determines every future access); the search runs to the fixpoint of
+//! the shape graph, so chains of any length are covered. Every transition executes the whole
+//! program on the real code through four ownership paths and runs the complete access battery
+//! against the list-of-lists window model (`model::window`), comparing values, *addresses* and
+//! the whole parent buffer (sentinel copy) after every mutation.
+//!
+//! Thorough additionally replays the program set of the bases with sides <= 2 under Miri
+//! (supplementary; recorded in the evidence, never the decider). `--replay` accepts either one
+//! program (`{base, ops}`) or `{"program_set": {max_side, max_depth, battery_once}}`.
+use crate::engine::bfs::bfs;
+use crate::engine::catch;
+use crate::engine::report::{Ctx, Report, Samples, Tier, Violations};
+use crate::engine::util::{hash128, hash64};
+use crate::model::window::{Window, SELS};
+use rayon::prelude::*;
+use serde_json::{json, Value};
+use std::collections::HashSet;
+use std::sync::atomic::{AtomicU64, Ordering};
+use std::sync::Mutex;
+use surf_n_term::surface::{
+    Shape, Surface, SurfaceMut, SurfaceMutView, SurfaceOwned, SurfaceView,
+};
+use surf_n_term::{Position, Size};
 
-pub fn run(_ctx: &Ctx) -> Result<Report, String> {
-    Err("C07: check not built yet".into())
+/// Element type: not `Copy` on purpose (moves/clones are real operations).
+#[derive(Clone, Debug, Default, PartialEq, Eq, Hash)]
+pub struct E(pub u32);
+
+const SZ: usize = std::mem::size_of::<E>();
+
+fn code(r: usize, c: usize) -> u32 {
+    1000 + 10 * r as u32 + c as u32
+}
+fn pad(off: usize) -> u32 {
+    5000 + off as u32
 }
 
-pub fn replay(_w: &Value) -> Result<(bool, String), String> {
-    Err("C07: check not built yet".into())
+// ---------------------------------------------------------------------------------------
+// operations
+// ---------------------------------------------------------------------------------------
+
+#[derive(Clone, Copy, PartialEq, Eq, Hash, Debug)]
+pub enum Op {
+    T,
+    V(u8, u8),
+}
+
+const NSEL: usize = SELS.len();
+
+fn all_ops() -> Vec<Op> {
+    let mut v = vec![Op::T];
+    for r in 0..NSEL {
+        for c in 0..NSEL {
+            v.push(Op::V(r as u8, c as u8));
+        }
+    }
+    v
+}
+
+fn op_name(op: Op) -> String {
+    match op {
+        Op::T => "transpose".to_string(),
+        Op::V(r, c) => format!("view({}, {})", SELS[r as usize].name, SELS[c as usize].name),
+    }
+}
+
+fn op_parse(s: &str) -> Option<Op> {
+    all_ops().into_iter().find(|o| op_name(*o) == s)
+}
+
+/// Dispatch a selector id to a typed range expression (the library API is generic).
+macro_rules! with_sel {
+    ($id:expr, $x:ident, $body:expr) => {
+        match $id {
+            0 => {
+                let $x = ..;
+                $body
+            }
+            1 => {
+                let $x = 1i32..;
+                $body
+            }
+            2 => {
+                let $x = ..-1i32;
+                $body
+            }
+            3 => {
+                let $x = 1i32..-1i32;
+                $body
+            }
+            4 => {
+                let $x = 0i32;
+                $body
+            }
+            5 => {
+                let $x = -1i32;
+                $body
+            }
+            6 => {
+                let $x = 1i32..=2i32;
+                $body
+            }
+            7 => {
+                let $x = -2i32..;
+                $body
+            }
+            8 => {
+                let $x = 5i32..;
+                $body
+            }
+            9 => {
+                let $x = 2i32..1i32;
+                $body
+            }
+            10 => {
+                let $x = ..=-9i32;
+                $body
+            }
+            _ => unreachable!(),
+        }
+    };
+}
+
+// ---------------------------------------------------------------------------------------
+// base surfaces
+// ---------------------------------------------------------------------------------------
+
+#[derive(Clone, Copy, PartialEq, Eq, Hash, Debug)]
+pub enum Layout {
+    Dense,
+    Strided,
+}
+
+impl Layout {
+    fn name(self) -> &'static str {
+        match self {
+            Layout::Dense => "dense",
+            Layout::Strided => "strided",
+        }
+    }
+}
+
+#[derive(Clone, Copy, PartialEq, Eq, Hash, Debug)]
+pub struct Base {
+    pub h: usize,
+    pub w: usize,
+    pub layout: Layout,
+}
+
+const S_START: usize = 2;
+const S_CS: usize = 2;
+
+impl Base {
+    fn rs(&self) -> usize {
+        match self.layout {
+            Layout::Dense => self.w,
+            Layout::Strided => 2 * self.w + 3,
+        }
+    }
+    fn offset(&self, r: usize, c: usize) -> usize {
+        match self.layout {
+            Layout::Dense => r * self.w + c,
+            Layout::Strided => S_START + r * self.rs() + c * S_CS,
+        }
+    }
+    fn buf_len(&self) -> usize {
+        match self.layout {
+            Layout::Dense => self.h * self.w,
+            Layout::Strided => S_START + self.h * self.rs() + 3,
+        }
+    }
+    /// shape of the strided base (dense bases get theirs from `SurfaceOwned`)
+    fn strided_shape(&self) -> Shape {
+        let (start, end) = if self.h * self.w == 0 {
+            (S_START, S_START)
+        } else {
+            (S_START, self.offset(self.h - 1, self.w - 1) + 1)
+        };
+        Shape {
+            start,
+            end,
+            width: self.w,
+            height: self.h,
+            row_stride: self.rs(),
+            col_stride: S_CS,
+        }
+    }
+    fn pristine(&self) -> Vec<E> {
+        let mut v: Vec<E> = (0..self.buf_len()).map(|o| E(pad(o))).collect();
+        for r in 0..self.h {
+            for c in 0..self.w {
+                v[self.offset(r, c)] = E(code(r, c));
+            }
+        }
+        v
+    }
+    fn json(&self) -> Value {
+        json!({"h": self.h, "w": self.w, "layout": self.layout.name()})
+    }
+}
+
+// ---------------------------------------------------------------------------------------
+// expectation derived from the model
+// ---------------------------------------------------------------------------------------
+
+struct Expect {
+    h: usize,
+    w: usize,
+    n: usize,
+    /// expected parent-buffer offset of the k-th cell in row-major order
+    offs: Vec<usize>,
+    /// expected value of the k-th cell
+    vals: Vec<E>,
+    pristine: Vec<E>,
+    in_window: Vec<bool>,
+}
+
+impl Expect {
+    fn new(base: &Base, win: &Window) -> Self {
+        let cells = win.row_major();
+        let pristine = base.pristine();
+        let offs: Vec<usize> = cells.iter().map(|(r, c)| base.offset(*r, *c)).collect();
+        let vals: Vec<E> = cells.iter().map(|(r, c)| E(code(*r, *c))).collect();
+        let mut in_window = vec![false; pristine.len()];
+        for o in &offs {
+            in_window[*o] = true;
+        }
+        let n = cells.len();
+        Expect {
+            h: if n == 0 { 0 } else { win.h },
+            w: if n == 0 { 0 } else { win.w },
+            n,
+            offs,
+            vals,
+            pristine,
+            in_window,
+        }
+    }
+    fn pos(&self, k: usize) -> Position {
+        Position::new(k / self.w, k % self.w)
+    }
+    /// parent buffer after writing `f(k)` into the cells `k` for which it returns Some
+    fn buf_with(&self, f: impl Fn(usize) -> Option<E>) -> Vec<E> {
+        let mut b = self.pristine.clone();
+        for k in 0..self.n {
+            if let Some(v) = f(k) {
+                b[self.offs[k]] = v;
+            }
+        }
+        b
+    }
+}
+
+#[derive(Debug, Clone)]
+pub struct Finding {
+    sub: &'static str,
+    kind: String,
+    detail: String,
+}
+
+#[derive(Default)]
+struct Out {
+    findings: Vec<Finding>,
+    checks: u64,
+}
+
+impl Out {
+    fn fail(&mut self, sub: &'static str, kind: &str, detail: String) {
+        self.findings.push(Finding { sub, kind: kind.to_string(), detail });
+    }
+}
+
+/// `ensure!(out, cond, sub, kind, fmt...)`: count the comparison; on failure record and leave
+/// the current sub-check.
+macro_rules! ensure {
+    ($out:expr, $cond:expr, $sub:expr, $kind:expr, $($fmt:tt)*) => {
+        $out.checks += 1;
+        if !($cond) {
+            $out.fail($sub, $kind, format!($($fmt)*));
+            return;
+        }
+    };
+}
+
+fn guard(out: &mut Out, sub: &'static str, f: impl FnOnce(&mut Out)) {
+    let mut local = Out::default();
+    let r = catch(|| f(&mut local));
+    out.checks += local.checks;
+    out.findings.append(&mut local.findings);
+    if let Err(p) = r {
+        out.fail(
+            sub,
+            &format!("panic:{}", p.key()),
+            format!("panicked: {} ({}:{})", p.message, p.file, p.line),
+        );
+    }
+}
+
+fn addr<T>(r: &T) -> usize {
+    r as *const T as usize
+}
+
+// ---------------------------------------------------------------------------------------
+// read-only battery
+// ---------------------------------------------------------------------------------------
+
+/// shape / size / extent / aliasing of the parent buffer. Returns false when the remaining
+/// checks would only cascade.
+fn chk_shape(s: &dyn Surface<Item = E>, x: &Expect, bp: usize, out: &mut Out) -> bool {
+    let before = out.findings.len();
+    guard(out, "shape", |out| {
+        let sh = s.shape();
+        if x.n == 0 {
+            ensure!(out, sh.height * sh.width == 0, "shape", "cells-but-model-empty",
+                "model window has no cells, library shape {:?}", sh);
+        } else {
+            ensure!(out, (sh.height, sh.width) == (x.h, x.w), "shape", "size",
+                "model window is {}x{}, library shape {:?}", x.h, x.w, sh);
+        }
+        ensure!(out, s.height() == sh.height && s.width() == sh.width && s.size() == sh.size(),
+            "shape", "accessors", "height()/width()/size() disagree with shape() {:?}", sh);
+        ensure!(out, s.is_empty() == (x.n == 0), "shape", "is_empty",
+            "is_empty() = {} for a window of {} cells (shape {:?})", s.is_empty(), x.n, sh);
+        ensure!(out, s.as_ref().shape() == sh, "shape", "as_ref", "as_ref() changes the shape");
+        let d = s.data();
+        ensure!(out, d.as_ptr() as usize == bp && d.len() == x.pristine.len(), "data", "not-parent-buffer",
+            "data() is not the parent buffer: ptr {:#x} len {} (parent {:#x} len {})",
+            d.as_ptr() as usize, d.len(), bp, x.pristine.len());
+    });
+    if out.findings.len() != before {
+        return false;
+    }
+    // documented meaning of the public fields: `start` = offset of the first element,
+    // `end` = offset of the last element + 1
+    guard(out, "shape-extent", |out| {
+        if x.n > 0 {
+            let sh = s.shape();
+            let last = *x.offs.iter().max().unwrap();
+            ensure!(out, sh.start == x.offs[0], "shape-extent", "start",
+                "Shape.start = {} but the first cell of the window is at offset {} ({:?})", sh.start, x.offs[0], sh);
+            ensure!(out, sh.end == last + 1, "shape-extent", "end",
+                "Shape.end = {} but the last cell of the window is at offset {} (documented: last + 1 = {}); parent buffer has {} items ({:?})",
+                sh.end, last, last + 1, x.pristine.len(), sh);
+        }
+    });
+    true
+}
+
+fn probes(n: usize) -> Vec<usize> {
+    let mut v: Vec<usize> = (0..=n + 1).collect();
+    v.push(usize::MAX / 2 + 1);
+    v.push(usize::MAX);
+    v
+}
+
+fn chk_get(s: &dyn Surface<Item = E>, x: &Expect, bp: usize, out: &mut Out) {
+    guard(out, "get", |out| {
+        let sh = s.shape();
+        for row in probes(x.h.max(sh.height)) {
+            for col in probes(x.w.max(sh.width)) {
+                let inside = row < x.h && col < x.w;
+                let got = s.get(Position::new(row, col));
+                match (inside, got) {
+                    (true, Some(r)) => {
+                        let k = row * x.w + col;
+                        ensure!(out, addr(r) == bp + x.offs[k] * SZ, "get", "wrong-cell",
+                            "get({},{}) refers to parent offset {} instead of {}", row, col,
+                            (addr(r).wrapping_sub(bp)) / SZ, x.offs[k]);
+                        ensure!(out, *r == x.vals[k], "get", "wrong-value",
+                            "get({},{}) = {:?}, model {:?}", row, col, r, x.vals[k]);
+                    }
+                    (true, None) => {
+                        ensure!(out, false, "get", "absent-inside", "get({},{}) = None inside a {}x{} window", row, col, x.h, x.w);
+                    }
+                    (false, Some(r)) => {
+                        ensure!(out, false, "get", "present-outside",
+                            "get({},{}) = Some({:?}) outside a {}x{} window", row, col, r, x.h, x.w);
+                    }
+                    (false, None) => out.checks += 1,
+                }
+            }
+        }
+    });
+}
+
+fn chk_iter(s: &dyn Surface<Item = E>, x: &Expect, bp: usize, out: &mut Out) {
+    guard(out, "iter", |out| {
+        let mut it = s.iter();
+        for k in 0..x.n {
+            ensure!(out, it.index() == k, "iter", "index", "index() = {} before item {}", it.index(), k);
+            ensure!(out, it.position() == x.pos(k), "iter", "position",
+                "position() = {:?} before item {} of a {}x{} window", it.position(), k, x.h, x.w);
+            match it.next() {
+                Some(r) => {
+                    ensure!(out, addr(r) == bp + x.offs[k] * SZ, "iter", "order",
+                        "item {} is parent offset {} instead of {}", k, addr(r).wrapping_sub(bp) / SZ, x.offs[k]);
+                    ensure!(out, *r == x.vals[k], "iter", "value", "item {} = {:?}, model {:?}", k, r, x.vals[k]);
+                }
+                None => {
+                    ensure!(out, false, "iter", "short", "iterator ended after {} of {} items", k, x.n);
+                }
+            }
+        }
+        ensure!(out, it.index() == x.n, "iter", "index", "index() = {} after all {} items", it.index(), x.n);
+        for _ in 0..2 {
+            let extra = it.next();
+            ensure!(out, extra.is_none(), "iter", "long", "iterator yields {:?} after {} items", extra, x.n);
+        }
+        ensure!(out, s.iter().count() == x.n, "iter", "count", "iter().count() = {}, window has {} cells", s.iter().count(), x.n);
+        let mut cnt = 0;
+        for (k, (pos, r)) in s.iter().with_position().enumerate() {
+            ensure!(out, k < x.n, "iter", "long", "with_position yields more than {} items", x.n);
+            ensure!(out, pos == x.pos(k) && addr(r) == bp + x.offs[k] * SZ, "iter", "with_position",
+                "with_position item {}: pos {:?} parent offset {}", k, pos, addr(r).wrapping_sub(bp) / SZ);
+            cnt += 1;
+        }
+        ensure!(out, cnt == x.n, "iter", "count", "with_position yields {} of {} items", cnt, x.n);
+    });
+}
+
+fn chk_nth(s: &dyn Surface<Item = E>, x: &Expect, bp: usize, out: &mut Out) {
+    guard(out, "nth", |out| {
+        for k in 0..=x.n {
+            for j in 0..=(x.n - k + 1) {
+                let mut it = s.iter();
+                for _ in 0..k {
+                    it.next();
+                }
+                let got = it.nth(j).map(|r| addr(r).wrapping_sub(bp) / SZ);
+                let want = x.offs.get(k + j).copied();
+                ensure!(out, got == want, "nth", "element",
+                    "after {} items nth({}) is parent offset {:?}, model {:?}", k, j, got, want);
+                if want.is_some() {
+                    ensure!(out, it.index() == k + j + 1, "nth", "index", "index() = {} after nth({}) from {}", it.index(), j, k);
+                }
+                let got2 = it.next().map(|r| addr(r).wrapping_sub(bp) / SZ);
+                let want2 = x.offs.get(k + j + 1).copied();
+                ensure!(out, got2 == want2, "nth", "following",
+                    "after {} items and nth({}) next() is parent offset {:?}, model {:?}", k, j, got2, want2);
+            }
+        }
+    });
+}
+
+fn chk_map(s: &dyn Surface<Item = E>, x: &Expect, bp: usize, out: &mut Out) {
+    guard(out, "map", |out| {
+        let mut calls: Vec<(Position, usize)> = vec![];
+        let m = Surface::map(&s, |pos, item| {
+            calls.push((pos, addr(item).wrapping_sub(bp) / SZ));
+            (pos.row, pos.col, item.0)
+        });
+        let want_calls: Vec<(Position, usize)> = (0..x.n).map(|k| (x.pos(k), x.offs[k])).collect();
+        ensure!(out, calls == want_calls, "map", "calls",
+            "map called f on {:?}, model {:?}", calls, want_calls);
+        if x.n > 0 {
+            ensure!(out, m.shape() == Shape::from(Size::new(x.h, x.w)), "map", "shape",
+                "map result shape {:?} for a {}x{} window", m.shape(), x.h, x.w);
+        }
+        let want: Vec<(usize, usize, u32)> = (0..x.n).map(|k| (k / x.w, k % x.w, x.vals[k].0)).collect();
+        ensure!(out, m.data() == &want[..] && m.iter().count() == x.n, "map", "content",
+            "map result {:?}, model {:?}", m.data(), want);
+    });
+    guard(out, "to_owned_surf", |out| {
+        let o = s.to_owned_surf();
+        if x.n > 0 {
+            ensure!(out, o.shape() == Shape::from(Size::new(x.h, x.w)), "to_owned_surf", "shape",
+                "copy has shape {:?} for a {}x{} window", o.shape(), x.h, x.w);
+        }
+        ensure!(out, o.data() == &x.vals[..] && o.iter().count() == x.n, "to_owned_surf", "content",
+            "copy holds {:?}, model {:?}", o.data(), x.vals);
+        let p = o.data().as_ptr() as usize;
+        ensure!(out, x.n == 0 || p + x.n * SZ <= bp || p >= bp + x.pristine.len() * SZ, "to_owned_surf", "aliases-parent",
+            "copy lives inside the parent buffer");
+    });
+}
+
+fn chk_untouched(s: &dyn Surface<Item = E>, x: &Expect, sub: &'static str, out: &mut Out) {
+    guard(out, sub, |out| cmp_buf(s.data(), &x.pristine, x, sub, "after read-only access", out));
+}
+
+fn cmp_buf(got: &[E], want: &[E], x: &Expect, sub: &'static str, what: &str, out: &mut Out) {
+    out.checks += 1;
+    if got == want {
+        return;
+    }
+    if got.len() != want.len() {
+        out.fail(sub, "buffer-length", format!("{what}: parent buffer has {} items, expected {}", got.len(), want.len()));
+        return;
+    }
+    // outside-window damage first (the stronger statement)
+    let idx = (0..got.len())
+        .find(|i| got[*i] != want[*i] && !x.in_window[*i])
+        .or_else(|| (0..got.len()).find(|i| got[*i] != want[*i]))
+        .unwrap();
+    let kind = if x.in_window[idx] { "window-cell-wrong" } else { "outside-window-changed" };
+    out.fail(
+        sub,
+        kind,
+        format!("{what}: parent offset {} holds {:?}, model {:?} (window offsets {:?})", idx, got[idx], want[idx], x.offs),
+    );
+}
+
+fn read_battery(s: &dyn Surface<Item = E>, x: &Expect, bp: usize, out: &mut Out) -> bool {
+    if !chk_shape(s, x, bp, out) {
+        return false;
+    }
+    chk_get(s, x, bp, out);
+    chk_iter(s, x, bp, out);
+    chk_nth(s, x, bp, out);
+    chk_map(s, x, bp, out);
+    chk_untouched(s, x, "read-untouched", out);
+    true
+}
+
+// ---------------------------------------------------------------------------------------
+// mutable battery
+// ---------------------------------------------------------------------------------------
+
+fn restore(s: &mut dyn SurfaceMut<Item = E>, x: &Expect) {
+    let d = s.data_mut();
+    if d.len() == x.pristine.len() {
+        d.clone_from_slice(&x.pristine);
+    }
+}
+
+fn mut_battery(s: &mut dyn SurfaceMut<Item = E>, x: &Expect, bp: usize, out: &mut Out) {
+    {
+        let r: &dyn SurfaceMut<Item = E> = &*s;
+        let before = out.findings.len();
+        if !read_battery(r, x, bp, out) || out.findings.len() != before {
+            // a wrong window already shows in the read-only battery; the mutations would
+            // only repeat the same root cause under more keys
+            return;
+        }
+    }
+
+    // get_mut: every position of the window and the ring around it
+    guard(out, "get_mut", |out| {
+        let sh = s.shape();
+        for row in probes(x.h.max(sh.height)) {
+            for col in probes(x.w.max(sh.width)) {
+                let inside = row < x.h && col < x.w;
+                let got = s.get_mut(Position::new(row, col));
+                match (inside, got) {
+                    (true, Some(r)) => {
+                        let k = row * x.w + col;
+                        ensure!(out, addr(r) == bp + x.offs[k] * SZ, "get_mut", "wrong-cell",
+                            "get_mut({},{}) refers to parent offset {} instead of {}", row, col,
+                            addr(r).wrapping_sub(bp) / SZ, x.offs[k]);
+                        *r = E(7000 + k as u32);
+                    }
+                    (true, None) => {
+                        ensure!(out, false, "get_mut", "absent-inside", "get_mut({},{}) = None inside a {}x{} window", row, col, x.h, x.w);
+                    }
+                    (false, Some(r)) => {
+                        ensure!(out, false, "get_mut", "present-outside",
+                            "get_mut({},{}) = Some({:?}) outside a {}x{} window", row, col, r, x.h, x.w);
+                    }
+                    (false, None) => out.checks += 1,
+                }
+            }
+        }
+        cmp_buf(s.data(), &x.buf_with(|k| Some(E(7000 + k as u32))), x, "get_mut", "after writing through get_mut", out);
+    });
+    restore(s, x);
+
+    // set
+    guard(out, "set", |out| {
+        for k in 0..x.n {
+            let old = s.set(x.pos(k), E(7100 + k as u32));
+            ensure!(out, old == x.vals[k], "set", "returned", "set({:?}) returned {:?}, model {:?}", x.pos(k), old, x.vals[k]);
+        }
+        cmp_buf(s.data(), &x.buf_with(|k| Some(E(7100 + k as u32))), x, "set", "after set on every cell", out);
+    });
+    restore(s, x);
+
+    // iter_mut: addresses, all references alive at once
+    guard(out, "iter_mut", |out| {
+        {
+            let mut it = s.iter_mut();
+            let mut refs: Vec<&mut E> = Vec::new();
+            for k in 0..x.n {
+                ensure!(out, it.index() == k, "iter_mut", "index", "index() = {} before item {}", it.index(), k);
+                ensure!(out, it.position() == x.pos(k), "iter_mut", "position",
+                    "position() = {:?} before item {} of a {}x{} window", it.position(), k, x.h, x.w);
+                match it.next() {
+                    Some(r) => refs.push(r),
+                    None => {
+                        ensure!(out, false, "iter_mut", "short", "iterator ended after {} of {} items", k, x.n);
+                    }
+                }
+            }
+            for _ in 0..2 {
+                let extra = it.next().map(|r| addr(r).wrapping_sub(bp) / SZ);
+                ensure!(out, extra.is_none(), "iter_mut", "long", "iterator yields parent offset {:?} after {} items", extra, x.n);
+            }
+            let got: Vec<usize> = refs.iter().map(|r| addr(&**r).wrapping_sub(bp) / SZ).collect();
+            let mut uniq = got.clone();
+            uniq.sort();
+            uniq.dedup();
+            ensure!(out, uniq.len() == got.len(), "iter_mut", "aliasing",
+                "two live &mut refer to the same cell: parent offsets {:?}", got);
+            ensure!(out, got.iter().all(|o| *o < x.in_window.len() && x.in_window[*o]) && refs.iter().all(|r| (addr(&**r).wrapping_sub(bp)) % SZ == 0),
+                "iter_mut", "outside-window", "&mut to parent offsets {:?}, window is {:?}", got, x.offs);
+            ensure!(out, got == x.offs, "iter_mut", "order", "&mut in order {:?}, model (row-major) {:?}", got, x.offs);
+            for (k, r) in refs.iter_mut().enumerate() {
+                **r = E(7200 + k as u32);
+            }
+            for (k, r) in refs.iter().enumerate() {
+                ensure!(out, r.0 == 7200 + k as u32, "iter_mut", "aliasing", "write through reference {} was overwritten: {:?}", k, r);
+            }
+        }
+        cmp_buf(s.data(), &x.buf_with(|k| Some(E(7200 + k as u32))), x, "iter_mut", "after writing through iter_mut", out);
+        let mut cnt = 0;
+        for (k, (pos, r)) in s.iter_mut().with_position().enumerate() {
+            ensure!(out, k < x.n, "iter_mut", "long", "with_position yields more than {} items", x.n);
+            ensure!(out, pos == x.pos(k) && addr(r) == bp + x.offs[k] * SZ, "iter_mut", "with_position",
+                "with_position item {}: pos {:?} parent offset {}", k, pos, addr(r).wrapping_sub(bp) / SZ);
+            cnt += 1;
+        }
+        ensure!(out, cnt == x.n && s.iter_mut().count() == x.n, "iter_mut", "count", "iter_mut yields {} of {} items", cnt, x.n);
+    });
+    restore(s, x);
+
+    // nth on the mutable iterator
+    guard(out, "nth_mut", |out| {
+        for k in 0..=x.n {
+            for j in 0..=(x.n - k + 1) {
+                {
+                    let mut it = s.iter_mut();
+                    for _ in 0..k {
+                        it.next();
+                    }
+                    let r = it.nth(j);
+                    let got = r.as_ref().map(|r| addr(&**r).wrapping_sub(bp) / SZ);
+                    let want = x.offs.get(k + j).copied();
+                    ensure!(out, got == want, "nth_mut", "element",
+                        "after {} items nth({}) is parent offset {:?}, model {:?}", k, j, got, want);
+                    if let Some(r) = r {
+                        *r = E(7300);
+                        ensure!(out, it.index() == k + j + 1, "nth_mut", "index", "index() = {} after nth({}) from {}", it.index(), j, k);
+                    }
+                    let got2 = it.next().map(|r| addr(r).wrapping_sub(bp) / SZ);
+                    let want2 = x.offs.get(k + j + 1).copied();
+                    ensure!(out, got2 == want2, "nth_mut", "following",
+                        "after {} items and nth({}) next() is parent offset {:?}, model {:?}", k, j, got2, want2);
+                }
+                let before = out.findings.len();
+                cmp_buf(s.data(), &x.buf_with(|i| (i == k + j).then_some(E(7300))), x, "nth_mut", "after writing through nth", out);
+                if out.findings.len() != before {
+                    return;
+                }
+                if k + j < x.n {
+                    let o = x.offs[k + j];
+                    s.data_mut()[o] = x.pristine[o].clone();
+                }
+            }
+        }
+    });
+    restore(s, x);
+
+    // fill
+    guard(out, "fill", |out| {
+        s.fill(E(7400));
+        cmp_buf(s.data(), &x.buf_with(|_| Some(E(7400))), x, "fill", "after fill", out);
+    });
+    restore(s, x);
+
+    // fill_with
+    guard(out, "fill_with", |out| {
+        let mut calls: Vec<(Position, E)> = vec![];
+        {
+            let mut sm: &mut dyn SurfaceMut<Item = E> = &mut *s;
+            SurfaceMut::fill_with(&mut sm, |pos, old| {
+                calls.push((pos, old));
+                E(7500 + calls.len() as u32 - 1)
+            });
+        }
+        let want: Vec<(Position, E)> = (0..x.n).map(|k| (x.pos(k), x.vals[k].clone())).collect();
+        ensure!(out, calls == want, "fill_with", "calls", "fill_with called f with {:?}, model {:?}", calls, want);
+        cmp_buf(s.data(), &x.buf_with(|k| Some(E(7500 + k as u32))), x, "fill_with", "after fill_with", out);
+    });
+    restore(s, x);
+
+    // clear
+    guard(out, "clear", |out| {
+        s.clear();
+        cmp_buf(s.data(), &x.buf_with(|_| Some(E::default())), x, "clear", "after clear", out);
+    });
+    restore(s, x);
+
+    // insert at every offset, several lengths
+    guard(out, "insert", |out| {
+        for k in 0..=x.n {
+            let pos = if k < x.n { x.pos(k) } else { Position::new(x.h, 0) };
+            let mut lens = vec![0usize, 1, 2, x.n - k, x.n + 2];
+            lens.sort();
+            lens.dedup();
+            for len in lens {
+                {
+                    let mut sm: &mut dyn SurfaceMut<Item = E> = &mut *s;
+                    SurfaceMut::insert(&mut sm, pos, (0..len).map(|i| E(7600 + i as u32)));
+                }
+                let before = out.findings.len();
+                cmp_buf(
+                    s.data(),
+                    &x.buf_with(|i| (i >= k && i < k + len).then(|| E(7600 + (i - k) as u32))),
+                    x,
+                    "insert",
+                    &format!("after insert of {} items at {:?}", len, pos),
+                    out,
+                );
+                if out.findings.len() != before {
+                    return;
+                }
+                restore(s, x);
+            }
+        }
+    });
+    restore(s, x);
+
+    guard(out, "as_mut", |out| {
+        let sh = s.shape();
+        ensure!(out, s.as_mut().shape() == sh, "shape", "as_mut", "as_mut() changes the shape");
+    });
+    chk_untouched(&*s, x, "final-untouched", out);
+}
+
+// ---------------------------------------------------------------------------------------
+// the four ownership paths
+// ---------------------------------------------------------------------------------------
+
+pub const PATHS: [&str; 4] = ["view(&S)", "view_mut", "view_owned(&mut S)", "view_owned(Box<dyn SurfaceMut>)"];
+
+fn chain_ref(s: &dyn Surface<Item = E>, ops: &[Op], k: &mut dyn FnMut(&dyn Surface<Item = E>)) {
+    match ops.split_first() {
+        None => k(s),
+        Some((Op::T, rest)) => {
+            let v = Surface::transpose(s);
+            chain_ref(&v, rest, k)
+        }
+        Some((Op::V(r, c), rest)) => {
+            let v: SurfaceView<'_, E> = with_sel!(*r, rs, with_sel!(*c, cs, Surface::view(&s, rs, cs)));
+            chain_ref(&v, rest, k)
+        }
+    }
+}
+
+fn chain_mut<'a>(
+    mut s: &'a mut (dyn SurfaceMut<Item = E> + 'a),
+    ops: &[Op],
+    owned: bool,
+    k: &mut dyn FnMut(&mut dyn SurfaceMut<Item = E>),
+) {
+    match ops.split_first() {
+        None => k(s),
+        Some((Op::T, rest)) => {
+            let mut v = Surface::transpose(s);
+            chain_mut(&mut v, rest, owned, k)
+        }
+        Some((Op::V(r, c), rest)) => {
+            if owned {
+                let mut v = with_sel!(*r, rs, with_sel!(*c, cs, Surface::view_owned(s, rs, cs)));
+                chain_mut(&mut v, rest, owned, k)
+            } else {
+                let mut v: SurfaceMutView<'_, E> =
+                    with_sel!(*r, rs, with_sel!(*c, cs, SurfaceMut::view_mut(&mut s, rs, cs)));
+                chain_mut(&mut v, rest, owned, k)
+            }
+        }
+    }
+}
+
+fn chain_box<'a>(root: Box<dyn SurfaceMut<Item = E> + 'a>, ops: &[Op]) -> Box<dyn SurfaceMut<Item = E> + 'a> {
+    let mut b = root;
+    for op in ops {
+        b = match op {
+            Op::T => Box::new(Surface::transpose(b)),
+            Op::V(r, c) => with_sel!(*r, rs, with_sel!(*c, cs, {
+                let v: Box<dyn SurfaceMut<Item = E> + 'a> = Box::new(Surface::view_owned(b, rs, cs));
+                v
+            })),
+        };
+    }
+    b
+}
+
+fn dense_root(base: &Base) -> SurfaceOwned<E> {
+    SurfaceOwned::new_with(Size::new(base.h, base.w), |p| E(code(p.row, p.col)))
+}
+
+/// Run `ops` on a fresh base through ownership path `path`, run the battery on the result.
+fn run_path(base: &Base, ops: &[Op], path: usize, x: &Expect, battery: bool, out: &mut Out) -> Option<Shape> {
+    let mut shape: Option<Shape> = None;
+    let r = catch(|| {
+        let mut buf = x.pristine.clone();
+        let bp_strided = buf.as_ptr() as usize;
+        let mut k_ref = |s: &dyn Surface<Item = E>, bp: usize, out: &mut Out| {
+            shape = Some(s.shape());
+            if battery {
+                read_battery(s, x, bp, out);
+            }
+        };
+        match (path, base.layout) {
+            (0, Layout::Dense) => {
+                let root = dense_root(base);
+                let bp = root.data().as_ptr() as usize;
+                chain_ref(&root, ops, &mut |s| k_ref(s, bp, out));
+            }
+            (0, Layout::Strided) => {
+                let root = SurfaceView::new(base.strided_shape(), &buf[..]);
+                chain_ref(&root, ops, &mut |s| k_ref(s, bp_strided, out));
+            }
+            (1 | 2, Layout::Dense) => {
+                let mut root = dense_root(base);
+                let bp = root.data().as_ptr() as usize;
+                chain_mut(&mut root, ops, path == 2, &mut |s| {
+                    shape = Some(s.shape());
+                    if battery {
+                        mut_battery(s, x, bp, out)
+                    }
+                });
+            }
+            (1 | 2, Layout::Strided) => {
+                let mut root = SurfaceMutView::new(base.strided_shape(), &mut buf[..]);
+                chain_mut(&mut root, ops, path == 2, &mut |s| {
+                    shape = Some(s.shape());
+                    if battery {
+                        mut_battery(s, x, bp_strided, out)
+                    }
+                });
+            }
+            (3, Layout::Dense) => {
+                let root = dense_root(base);
+                let bp = root.data().as_ptr() as usize;
+                let mut b = chain_box(Box::new(root), ops);
+                shape = Some(b.shape());
+                if battery {
+                    mut_battery(&mut *b, x, bp, out);
+                }
+            }
+            (3, Layout::Strided) => {
+                let root = SurfaceMutView::new(base.strided_shape(), &mut buf[..]);
+                let mut b = chain_box(Box::new(root), ops);
+                shape = Some(b.shape());
+                if battery {
+                    mut_battery(&mut *b, x, bp_strided, out);
+                }
+            }
+            _ => unreachable!(),
+        }
+    });
+    if let Err(p) = r {
+        out.fail(
+            "chain",
+            &format!("panic:{}", p.key()),
+            format!("building the view chain panicked: {} ({}:{})", p.message, p.file, p.line),
+        );
+    }
+    shape
+}
+
+/// Shape reached by `ops` through the `view(&S)` path only, no battery.
+fn probe_shape(base: &Base, ops: &[Op]) -> Option<Shape> {
+    let mut shape = None;
+    let _ = catch(|| match base.layout {
+        Layout::Dense => {
+            let root = dense_root(base);
+            chain_ref(&root, ops, &mut |s| shape = Some(s.shape()));
+        }
+        Layout::Strided => {
+            let buf = base.pristine();
+            let root = SurfaceView::new(base.strided_shape(), &buf[..]);
+            chain_ref(&root, ops, &mut |s| shape = Some(s.shape()));
+        }
+    });
+    shape
+}
+
+pub struct ProgramResult {
+    pub shape: Option<Shape>,
+    pub window: Window,
+    /// (path index, finding)
+    pub findings: Vec<(usize, Finding)>,
+    pub checks: u64,
+}
+
+pub fn model_window(base: &Base, ops: &[Op]) -> Window {
+    let mut win = Window::base(base.h, base.w);
+    for op in ops {
+        win = match op {
+            Op::T => win.transpose(),
+            Op::V(r, c) => win.view(SELS[*r as usize], SELS[*c as usize]),
+        };
+    }
+    win
+}
+
+pub fn check_program(base: &Base, ops: &[Op]) -> ProgramResult {
+    check_program_opt(base, ops, true)
+}
+
+/// `battery = false`: only build the chain through the four ownership paths and compare the
+/// resulting shapes (used to de-duplicate states in the sequential program-set replay).
+pub fn check_program_opt(base: &Base, ops: &[Op], battery: bool) -> ProgramResult {
+    let window = model_window(base, ops);
+    let x = Expect::new(base, &window);
+    let mut findings = vec![];
+    let mut checks = 0;
+    let mut shapes: Vec<Option<Shape>> = vec![];
+    for path in 0..PATHS.len() {
+        let mut out = Out::default();
+        let sh = run_path(base, ops, path, &x, battery, &mut out);
+        shapes.push(sh);
+        checks += out.checks;
+        findings.extend(out.findings.into_iter().map(|f| (path, f)));
+    }
+    checks += 1;
+    if shapes.iter().any(|s| *s != shapes[0]) && findings.iter().all(|(_, f)| f.sub != "chain") {
+        findings.push((
+            0,
+            Finding {
+                sub: "paths",
+                kind: "shape-differs".into(),
+                detail: format!("ownership paths disagree on the resulting shape: {:?}", shapes),
+            },
+        ));
+    }
+    ProgramResult { shape: shapes[0], window, findings, checks }
+}
+
+fn witness(base: &Base, ops: &[Op], path: usize) -> Value {
+    json!({
+        "base": base.json(),
+        "ops": ops.iter().map(|o| op_name(*o)).collect::<Vec<_>>(),
+        "path": PATHS[path],
+    })
+}
+
+// ---------------------------------------------------------------------------------------
+// driver
+// ---------------------------------------------------------------------------------------
+
+pub fn run(ctx: &Ctx) -> Result<Report, String> {
+    let ops = all_ops();
+    // the shape graph closes (fixpoint) well below this bound in both tiers
+    let max_depth: usize = 12;
+    let max_side: usize = ctx.tier.pick(5, 8);
+    let viol = Violations::new();
+    let samples = Samples::new(ctx.seed);
+    let picked: Mutex<Vec<(u64, Value)>> = Mutex::new(vec![]);
+    let checks = AtomicU64::new(0);
+    let programs = AtomicU64::new(0);
+    let windows: Mutex<HashSet<(Base, Window)>> = Mutex::new(HashSet::new());
+    let shapes_seen: Mutex<HashSet<(Base, Shape)>> = Mutex::new(HashSet::new());
+
+    let mut bases = vec![];
+    for layout in [Layout::Dense, Layout::Strided] {
+        for h in 0..=max_side {
+            for w in 0..=max_side {
+                bases.push(Base { h, w, layout });
+            }
+        }
+    }
+
+    let stats: Vec<_> = bases
+        .par_iter()
+        .map(|base| {
+            bfs(ctx, &ops, max_depth, |hist: &[Op]| {
+                let res = check_program(base, hist);
+                checks.fetch_add(res.checks, Ordering::Relaxed);
+                programs.fetch_add(1, Ordering::Relaxed);
+                if !res.findings.is_empty() {
+                    for (path, f) in &res.findings {
+                        viol.add(
+                            format!("{}:{}", f.sub, f.kind),
+                            format!(
+                                "{}x{} {} base, [{}] via {}: {}",
+                                base.h,
+                                base.w,
+                                base.layout.name(),
+                                hist.iter().map(|o| op_name(*o)).collect::<Vec<_>>().join(", "),
+                                PATHS[*path],
+                                f.detail
+                            ),
+                            witness(base, hist, *path),
+                        );
+                    }
+                    return None;
+                }
+                let shape = res.shape?;
+                let hh = hash64(&(base, hist));
+                if hist.len() >= 2 && !res.window.is_empty() && hh % 30011 == ctx.seed % 30011 {
+                    picked.lock().unwrap().push((hh, json!({
+                        "base": base.json(),
+                        "ops": hist.iter().map(|o| op_name(*o)).collect::<Vec<_>>(),
+                        "shape": format!("{:?}", shape),
+                        "model_window": res.window.cells,
+                    })));
+                }
+                windows.lock().unwrap().insert((*base, res.window));
+                shapes_seen.lock().unwrap().insert((*base, shape));
+                Some(hash128(&(base, shape)))
+            })
+        })
+        .collect();
+
+    let states: u64 = stats.iter().map(|s| s.states).sum();
+    let transitions: u64 = stats.iter().map(|s| s.transitions).sum();
+    let pruned: u64 = stats.iter().map(|s| s.pruned).sum();
+    let fixpoint = stats.iter().all(|s| s.fixpoint);
+    let capped = stats.iter().any(|s| s.capped);
+    let depth_reached = stats.iter().map(|s| s.max_depth).max().unwrap_or(0);
+    let mut levels: Vec<u64> = vec![];
+    for s in &stats {
+        for (i, l) in s.levels.iter().enumerate() {
+            if levels.len() <= i {
+                levels.push(0);
+            }
+            levels[i] += l;
+        }
+    }
+    let wins = windows.into_inner().unwrap();
+    let nonempty = wins.iter().filter(|(_, w)| !w.is_empty()).count();
+    let shapes = shapes_seen.into_inner().unwrap();
+    let transposed = shapes.iter().filter(|(_, s)| s.col_stride > s.row_stride && s.height * s.width > 1).count();
+
+    let mut picked = picked.into_inner().unwrap();
+    picked.sort_by_key(|(h, _)| *h);
+    for (_, v) in picked.into_iter().take(8) {
+        samples.force(v);
+    }
+    let mut r = Report::new("model_checking");
+    r.set("states", states)
+        .set("transitions", transitions)
+        .set("traces_validated_against_impl", programs.load(Ordering::Relaxed))
+        .set("samples", samples.into_vec())
+        .set("exhaustive", !capped)
+        .set("capped", capped)
+        .set("fixpoint", fixpoint)
+        .set("max_depth_bound", max_depth)
+        .set("depth_reached", depth_reached)
+        .set("levels", levels)
+        .set("pruned_transitions", pruned)
+        .set("bases", bases.len())
+        .set("max_base_side", max_side)
+        .set("ops_per_state", ops.len())
+        .set("ownership_paths", PATHS.len())
+        .set("oracle_comparisons", checks.load(Ordering::Relaxed))
+        .set("distinct_shapes", shapes.len())
+        .set("distinct_model_windows", wins.len())
+        .set("distinct_nonempty_windows", nonempty)
+        .set("distinct_column_major_shapes", transposed)
+        .set("raw_violations", viol.raw_count())
+        .set(
+            "state_space",
+            "state = (base size, layout, resulting Shape); ops = transpose + view(r, c) for the 11x11 selector pairs; \
+             every transition re-executes the whole program on a fresh base through the four ownership paths and runs the \
+             full access battery (get/get_mut incl. ring and usize::MAX probes, iter, with_position, nth, iter_mut with \
+             live references and addresses, nth on iter_mut, set, fill, fill_with, clear, insert at every offset, map, \
+             to_owned_surf, parent buffer compared with a sentinel copy after every mutation)",
+        );
+    r.assume("an empty selection on either axis denotes the window without cells; the library's reported height/width of an empty window is not compared (it normalises to 0x0), only that it has no cells");
+    r.assume("Shape.start / Shape.end are checked against their field documentation: offset of the first cell / offset of the last cell + 1");
+    r.assume("range resolution itself is C08's subject; the model resolves selectors with model::slice::resolve (validated against CPython by C08)");
+    r.assume("position()/index() of an exhausted iterator and insert() at a position with col >= width are outside the statement and not checked");
+    if ctx.tier == Tier::Thorough {
+        miri_replay(ctx, &mut r);
+    }
+    r.violations = viol.into_vec();
+    Ok(r)
+}
+
+/// Supplementary UB detector (never the decider): replays the program set of the small bases
+/// under `cargo +nightly miri run` (Stacked Borrows on the `unsafe` mutable iterator). The result
+/// goes into the evidence only; a missing toolchain or a timeout is recorded, nothing more.
+fn miri_replay(_ctx: &Ctx, r: &mut Report) {
+    use std::process::{Command, Stdio};
+    if std::env::var("SNT_MIRI").as_deref() == Ok("0") {
+        r.set("miri", json!({"status": "skipped (SNT_MIRI=0)"}));
+        return;
+    }
+    let manifest_dir = env!("CARGO_MANIFEST_DIR");
+    let spec = json!({"witness": {"program_set": {"max_side": 2, "max_depth": 2, "battery_once": true}}});
+    let dir = crate::engine::workers::tmp_dir();
+    let file = format!("{dir}/c07-miri-set-{}.json", std::process::id());
+    if std::fs::write(&file, spec.to_string()).is_err() {
+        r.set("miri", json!({"status": "not run: cannot write the program-set file"}));
+        return;
+    }
+    let log = format!("{dir}/c07-miri-{}.log", std::process::id());
+    let t0 = std::time::Instant::now();
+    let budget: u64 = std::env::var("SNT_MIRI_BUDGET_S").ok().and_then(|s| s.parse().ok()).unwrap_or(600);
+    let out = std::fs::File::create(&log).ok();
+    let child = out.and_then(|f| {
+        let f2 = f.try_clone().ok()?;
+        Command::new("cargo")
+            .args(["+nightly", "miri", "run", "--offline", "--", "C07", "--replay", &file])
+            .current_dir(manifest_dir)
+            .env("MIRIFLAGS", "-Zmiri-disable-isolation")
+            .stdin(Stdio::null())
+            .stdout(Stdio::from(f))
+            .stderr(Stdio::from(f2))
+            .spawn()
+            .ok()
+    });
+    let mut child = match child {
+        Some(c) => c,
+        None => {
+            r.set("miri", json!({"status": "not run: cargo +nightly miri could not be started"}));
+            return;
+        }
+    };
+    let status = loop {
+        match child.try_wait() {
+            Ok(Some(st)) => break Some(st),
+            Ok(None) => {
+                if t0.elapsed().as_secs() > budget {
+                    let _ = child.kill();
+                    let _ = child.wait();
+                    break None;
+                }
+                std::thread::sleep(std::time::Duration::from_millis(500));
+            }
+            Err(_) => break None,
+        }
+    };
+    let text = std::fs::read_to_string(&log).unwrap_or_default();
+    let summary = text.lines().find(|l| l.starts_with("PROGRAM-SET")).unwrap_or("").to_string();
+    let ub = text.contains("Undefined Behavior");
+    let first_error: String = text.lines().find(|l| l.starts_with("error")).unwrap_or("").chars().take(300).collect();
+    let st = match (&status, ub) {
+        (_, true) => "UNDEFINED BEHAVIOUR REPORTED".to_string(),
+        (None, _) => format!("timed out after {budget}s (no verdict)"),
+        (Some(s), _) if s.success() => "clean".to_string(),
+        (Some(s), _) => format!("miri run ended with {s} (no verdict)"),
+    };
+    if ub {
+        eprintln!("NOTE C07: miri reported undefined behaviour (supplementary detector, not a verdict): {first_error}; log {log}");
+    }
+    r.set(
+        "miri",
+        json!({
+            "status": st,
+            "ub_reported": ub,
+            "program_set": summary,
+            "first_error": first_error,
+            "wall_s": t0.elapsed().as_secs(),
+            "log": log,
+            "cmd": "MIRIFLAGS=-Zmiri-disable-isolation cargo +nightly miri run --offline -- C07 --replay <program-set>",
+        }),
+    );
+    let _ = std::fs::remove_file(&file);
+}
+
+/// Sequential re-execution of a whole program set (every program of the shape graph of the
+/// bases with sides <= `max_side`, chains of <= `max_depth` operations). Used for the
+/// supplementary run under Miri; also usable natively.
+fn replay_program_set(spec: &Value) -> Result<(bool, String), String> {
+    let max_side = spec["max_side"].as_u64().ok_or("program_set.max_side")? as usize;
+    let max_depth = spec["max_depth"].as_u64().ok_or("program_set.max_depth")? as usize;
+    // run the access battery only the first time a shape is reached (every chain is still built
+    // through all four ownership paths)
+    let battery_once = spec["battery_once"].as_bool().unwrap_or(false);
+    let ops = all_ops();
+    let mut programs = 0u64;
+    let mut checks = 0u64;
+    let mut states = 0u64;
+    let mut bad: Vec<String> = vec![];
+    for layout in [Layout::Dense, Layout::Strided] {
+        for h in 0..=max_side {
+            for w in 0..=max_side {
+                let base = Base { h, w, layout };
+                let mut visited: HashSet<Shape> = HashSet::new();
+                let mut frontier: Vec<Vec<Op>> = vec![vec![]];
+                let root = check_program(&base, &[]);
+                programs += 1;
+                checks += root.checks;
+                if let Some(sh) = root.shape {
+                    visited.insert(sh);
+                    states += 1;
+                }
+                for _ in 0..max_depth {
+                    let mut next = vec![];
+                    for hist in &frontier {
+                        for op in &ops {
+                            let mut h2 = hist.clone();
+                            h2.push(*op);
+                            programs += 1;
+                            if battery_once {
+                                // cheap probe through one path; the full check only for new shapes
+                                match probe_shape(&base, &h2) {
+                                    Some(sh) if visited.contains(&sh) => continue,
+                                    _ => {}
+                                }
+                            }
+                            let res = check_program(&base, &h2);
+                            checks += res.checks;
+                            for (path, f) in &res.findings {
+                                if bad.len() < 20 {
+                                    bad.push(format!(
+                                        "{}x{} {} [{}] via {}: [{}:{}] {}",
+                                        h, w, layout.name(),
+                                        h2.iter().map(|o| op_name(*o)).collect::<Vec<_>>().join(", "),
+                                        PATHS[*path], f.sub, f.kind, f.detail
+                                    ));
+                                }
+                            }
+                            if res.findings.is_empty() {
+                                if let Some(sh) = res.shape {
+                                    if visited.insert(sh) {
+                                        states += 1;
+                                        next.push(h2);
+                                    }
+                                }
+                            }
+                        }
+                    }
+                    frontier = next;
+                    if frontier.is_empty() {
+                        break;
+                    }
+                }
+            }
+        }
+    }
+    let mut s = format!(
+        "PROGRAM-SET max_side={max_side} max_depth={max_depth} battery_once={battery_once} programs={programs} states={states} comparisons={checks} findings={}\n",
+        bad.len()
+    );
+    for b in &bad {
+        s.push_str(b);
+        s.push('\n');
+    }
+    Ok((!bad.is_empty(), s))
+}
+
+pub fn replay(w: &Value) -> Result<(bool, String), String> {
+    if let Some(spec) = w.get("program_set") {
+        return replay_program_set(spec);
+    }
+    let b = &w["base"];
+    let base = Base {
+        h: b["h"].as_u64().ok_or("base.h")? as usize,
+        w: b["w"].as_u64().ok_or("base.w")? as usize,
+        layout: match b["layout"].as_str() {
+            Some("dense") => Layout::Dense,
+            Some("strided") => Layout::Strided,
+            _ => return Err("base.layout".into()),
+        },
+    };
+    let mut ops = vec![];
+    for o in w["ops"].as_array().ok_or("ops")? {
+        ops.push(op_parse(o.as_str().ok_or("op")?).ok_or_else(|| format!("unknown op {o}"))?);
+    }
+    let res = check_program(&base, &ops);
+    let mut s = format!(
+        "base {}x{} {}; program [{}]\nexpected (model window, base coordinates per row): {:?}\nlibrary shape: {:?}\n",
+        base.h,
+        base.w,
+        base.layout.name(),
+        ops.iter().map(|o| op_name(*o)).collect::<Vec<_>>().join(", "),
+        res.window.cells,
+        res.shape
+    );
+    for (path, f) in &res.findings {
+        s.push_str(&format!("  [{}:{}] via {}: {}\n", f.sub, f.kind, PATHS[*path], f.detail));
+    }
+    if res.findings.is_empty() {
+        s.push_str(&format!("  all {} comparisons agree with the model\n", res.checks));
+    }
+    Ok((!res.findings.is_empty(), s))
 }
